@@ -180,9 +180,54 @@ func probeCapacity(e *pagedrv.Env, _ json.RawMessage, info map[string]interface{
 	}
 }
 
-type bfsPlan struct {
-	cfgs  []pagedrv.Cfg
-	depth int
+// Seeds: non-initial start states (most defects do not manifest from the
+// empty file within a small depth). Every seed ends without an open
+// transaction; the search runs from each seed separately.
+type seed struct {
+	Name string
+	Ops  []O
+}
+
+var (
+	seedEmpty = seed{"empty", nil}
+	seedTwo   = seed{"two-pages", []O{{K: pagedrv.OBegin}, {K: pagedrv.OAlloc, A: 2}, {K: pagedrv.OWriteAll}, {K: pagedrv.OSetRoot, A: 0}, {K: pagedrv.OCommit}}}
+	seedWAL   = seed{"overwritten", []O{{K: pagedrv.OBegin}, {K: pagedrv.OAlloc, A: 2}, {K: pagedrv.OWriteAll}, {K: pagedrv.OCommit},
+		{K: pagedrv.OBegin}, {K: pagedrv.OWriteAll}, {K: pagedrv.OCommit}}}
+	seedTail = seed{"free-tail", []O{{K: pagedrv.OBegin}, {K: pagedrv.OAlloc, A: 3}, {K: pagedrv.OWriteAll}, {K: pagedrv.OCommit},
+		{K: pagedrv.OBegin}, {K: pagedrv.OFree, A: -1}, {K: pagedrv.OCommit}}}
+	seedFrag = seed{"fragmented", []O{{K: pagedrv.OBegin}, {K: pagedrv.OAlloc, A: 7}, {K: pagedrv.OWriteAll}, {K: pagedrv.OCommit},
+		{K: pagedrv.OBegin}, {K: pagedrv.OFreeEveryOther, A: 1}, {K: pagedrv.OWrite, A: 0}, {K: pagedrv.OCommit}}}
+	seedFull = seed{"full", []O{{K: pagedrv.OBegin}, {K: pagedrv.OAlloc, A: 2}, {K: pagedrv.OWriteAll}, {K: pagedrv.OCommit},
+		{K: pagedrv.OBegin}, {K: pagedrv.OAllocAvail, A: 0}, {K: pagedrv.OCommit}}}
+	seedWide = seed{"wide-overwritten", []O{{K: pagedrv.OBegin}, {K: pagedrv.OAlloc, A: 14}, {K: pagedrv.OWriteAll}, {K: pagedrv.OCommit},
+		{K: pagedrv.OBegin}, {K: pagedrv.OWriteAll}, {K: pagedrv.OCommit}}}
+)
+
+type bfsRun struct {
+	Cfg   pagedrv.Cfg
+	Seed  seed
+	Depth int
+}
+
+func (r bfsRun) name() string { return r.Cfg.Name + "/" + r.Seed.Name }
+
+// plan builds the list of searches: the empty file to full depth, every other
+// seed to a smaller depth, on every configuration (bounded-only seeds are
+// skipped on unbounded files).
+func plan(cfgs []pagedrv.Cfg, seeds []seed, depth, seedDepth int) []bfsRun {
+	var out []bfsRun
+	for _, c := range cfgs {
+		out = append(out, bfsRun{c, seedEmpty, depth})
+	}
+	for _, sd := range seeds {
+		for _, c := range cfgs {
+			if sd.Name == "full" && c.MaxPages == 0 {
+				continue
+			}
+			out = append(out, bfsRun{c, sd, seedDepth})
+		}
+	}
+	return out
 }
 
 func sampleHook(ctx *core.Ctx, cfg pagedrv.Cfg) func(from *xstate.Node, s *xstate.Succ, isNew bool, to *xstate.Node) {
@@ -203,26 +248,25 @@ func finishBFS(ctx *core.Ctx, total xstate.Stats, extra int) {
 // ---- C04 ----
 
 func runC04(ctx *core.Ctx, pool *par.Pool) {
-	cfgs := []pagedrv.Cfg{pagedrv.CfgA, pagedrv.CfgC}
-	depth := 6
+	cfgs := []pagedrv.Cfg{pagedrv.CfgA, pagedrv.CfgB, pagedrv.CfgC}
+	depth, seedDepth := 5, 4
 	ctx.SetBudget(110 * time.Second)
 	if !ctx.Quick() {
-		cfgs = []pagedrv.Cfg{pagedrv.CfgA, pagedrv.CfgB, pagedrv.CfgC, pagedrv.CfgE}
-		depth = 9
+		cfgs = []pagedrv.Cfg{pagedrv.CfgA, pagedrv.CfgB, pagedrv.CfgC, pagedrv.CfgE, pagedrv.CfgF}
+		depth, seedDepth = 8, 7
 		ctx.SetBudget(25 * time.Minute)
 	}
 	var total xstate.Stats
 	sweeps := 0
-	for _, cfg := range cfgs {
-		cfg := cfg
+	for _, run := range plan(cfgs, []seed{seedTail, seedFrag, seedWAL, seedFull}, depth, seedDepth) {
+		cfg := run.Cfg
 		var all []*xstate.Node
-		st := xstate.BFS(ctx, pool, xstate.Spec{Cfg: cfg, Alphabet: allocAlphabet(true, !ctx.Quick()), MaxDepth: depth,
+		st := xstate.BFS(ctx, pool, xstate.Spec{Cfg: cfg, Seed: run.Seed.Ops, Alphabet: allocAlphabet(true, !ctx.Quick()), MaxDepth: run.Depth,
 			OnTransition: sampleHook(ctx, cfg),
 			OnLevel:      func(d int, fresh []*xstate.Node) { all = append(all, fresh...) }})
 		total.States += st.States
 		total.Transitions += st.Transitions
-		ctx.Set("depth_"+cfg.Name, st.Depth)
-		ctx.Set("closed_"+cfg.Name, st.Closed)
+		ctx.Set("depth_"+run.name(), st.Depth)
 		// allocation sweep in every state up to depth-1 (the last level is swept too if time allows)
 		xstate.RunProbes(ctx, pool, cfg, all, "sweep", nil, nil, func(n *xstate.Node, r *xstate.ProbeResult) { sweeps++ })
 	}
@@ -234,20 +278,20 @@ func runC04(ctx *core.Ctx, pool *par.Pool) {
 
 func runC11(ctx *core.Ctx, pool *par.Pool) {
 	cfgs := []pagedrv.Cfg{pagedrv.CfgA, pagedrv.CfgB}
-	depth := 6
+	depth, seedDepth := 6, 5
 	ctx.SetBudget(110 * time.Second)
 	if !ctx.Quick() {
 		cfgs = []pagedrv.Cfg{pagedrv.CfgA, pagedrv.CfgB, pagedrv.CfgD}
-		depth = 9
+		depth, seedDepth = 9, 8
 		ctx.SetBudget(25 * time.Minute)
 	}
 	var total xstate.Stats
 	probes := 0
 	outcomes := map[string]int{}
-	for _, cfg := range cfgs {
-		cfg := cfg
+	for _, run := range plan(cfgs, []seed{seedTail, seedFrag, seedWAL, seedFull}, depth, seedDepth) {
+		cfg := run.Cfg
 		var quiet []*xstate.Node
-		st := xstate.BFS(ctx, pool, xstate.Spec{Cfg: cfg, Alphabet: allocAlphabet(false, !ctx.Quick()), MaxDepth: depth,
+		st := xstate.BFS(ctx, pool, xstate.Spec{Cfg: cfg, Seed: run.Seed.Ops, Alphabet: allocAlphabet(false, !ctx.Quick()), MaxDepth: run.Depth,
 			OnTransition: sampleHook(ctx, cfg),
 			OnLevel: func(d int, fresh []*xstate.Node) {
 				for _, n := range fresh {
@@ -258,8 +302,7 @@ func runC11(ctx *core.Ctx, pool *par.Pool) {
 			}})
 		total.States += st.States
 		total.Transitions += st.Transitions
-		ctx.Set("depth_"+cfg.Name, st.Depth)
-		ctx.Set("closed_"+cfg.Name, st.Closed)
+		ctx.Set("depth_"+run.name(), st.Depth)
 		xstate.RunProbes(ctx, pool, cfg, quiet, "capacity", nil, nil, func(n *xstate.Node, r *xstate.ProbeResult) {
 			probes++
 			outcomes[fmt.Sprintf("alloc=%v live=%v meta=%v", r.Info["allocatable"], r.Info["live"], r.Info["meta"])]++
@@ -273,21 +316,21 @@ func runC11(ctx *core.Ctx, pool *par.Pool) {
 // ---- C07 ----
 
 func runC07(ctx *core.Ctx, pool *par.Pool) {
-	cfgs := []pagedrv.Cfg{pagedrv.CfgA, pagedrv.CfgC}
-	depth := 6
+	cfgs := []pagedrv.Cfg{pagedrv.CfgA, pagedrv.CfgB, pagedrv.CfgC}
+	depth, seedDepth := 6, 5
 	ctx.SetBudget(110 * time.Second)
 	if !ctx.Quick() {
 		cfgs = []pagedrv.Cfg{pagedrv.CfgA, pagedrv.CfgB, pagedrv.CfgC, pagedrv.CfgF}
-		depth = 9
+		depth, seedDepth = 9, 8
 		ctx.SetBudget(25 * time.Minute)
 	}
 	var total xstate.Stats
 	aborts, twinsRun := 0, 0
-	for _, cfg := range cfgs {
-		cfg := cfg
+	for _, run := range plan(cfgs, []seed{seedTail, seedFrag, seedWAL, seedFull}, depth, seedDepth) {
+		cfg := run.Cfg
 		var twins []xstate.TwinTask
 		seenPair := map[string]bool{}
-		st := xstate.BFS(ctx, pool, xstate.Spec{Cfg: cfg, Alphabet: allocAlphabet(true, !ctx.Quick()), MaxDepth: depth,
+		st := xstate.BFS(ctx, pool, xstate.Spec{Cfg: cfg, Seed: run.Seed.Ops, Alphabet: allocAlphabet(true, !ctx.Quick()), MaxDepth: run.Depth,
 			OnTransition: func(from *xstate.Node, s *xstate.Succ, isNew bool, to *xstate.Node) {
 				sampleHook(ctx, cfg)(from, s, isNew, to)
 				aborted := s.Op.K == pagedrv.ORollback || s.Op.K == pagedrv.OCloseTx
@@ -300,7 +343,7 @@ func runC07(ctx *core.Ctx, pool *par.Pool) {
 					return
 				}
 				path := append(from.Path(), s.Op)
-				if s.Log != base.Log {
+				if !sameLogical(base.Log, s.Log, usesOverflow(path)) {
 					var a, b pagedrv.Logical
 					json.Unmarshal([]byte(base.Log), &a)
 					json.Unmarshal([]byte(s.Log), &b)
@@ -312,13 +355,16 @@ func runC07(ctx *core.Ctx, pool *par.Pool) {
 				if s.Key != base.Key && !seenPair[base.Key+s.Key] {
 					// same logical state, different representation: futures must still agree
 					seenPair[base.Key+s.Key] = true
-					twins = append(twins, xstate.TwinTask{Cfg: cfg.Name, PathA: base.Path(), PathB: path, Conts: twinConts, Class: "abort"})
+					tw := xstate.TwinTask{Cfg: cfg.Name, PathA: base.Path(), PathB: path, Conts: twinConts, Class: "abort"}
+					if usesOverflow(path) {
+						tw.Ignore = []string{"Stats"}
+					}
+					twins = append(twins, tw)
 				}
 			}})
 		total.States += st.States
 		total.Transitions += st.Transitions
-		ctx.Set("depth_"+cfg.Name, st.Depth)
-		ctx.Set("closed_"+cfg.Name, st.Closed)
+		ctx.Set("depth_"+run.name(), st.Depth)
 		twinsRun += xstate.RunTwins(ctx, pool, twins)
 	}
 	ctx.Set("aborted_transactions_compared", aborts)
@@ -326,23 +372,50 @@ func runC07(ctx *core.Ctx, pool *par.Pool) {
 	finishBFS(ctx, total, twinsRun)
 }
 
+// usesOverflow reports whether a history contains an overflow-enabled
+// transaction. FileStats are only promised for files on which no transaction
+// enabled the overflow area (C11); the running DataAllocated counter is known
+// to subtract overflow pages (an observation outside the given properties).
+func usesOverflow(path []O) bool {
+	for _, op := range path {
+		if op.K == pagedrv.OBegin && op.B == 1 {
+			return true
+		}
+	}
+	return false
+}
+
+func sameLogical(a, b string, ignoreStats bool) bool {
+	if a == b {
+		return true
+	}
+	if !ignoreStats {
+		return false
+	}
+	var la, lb pagedrv.Logical
+	json.Unmarshal([]byte(a), &la)
+	json.Unmarshal([]byte(b), &lb)
+	la.Stats, lb.Stats = pagedrv.Logical{}.Stats, pagedrv.Logical{}.Stats
+	return la.String() == lb.String()
+}
+
 // ---- C10 ----
 
 func runC10(ctx *core.Ctx, pool *par.Pool) {
-	cfgs := []pagedrv.Cfg{pagedrv.CfgA, pagedrv.CfgC}
-	depth := 6
+	cfgs := []pagedrv.Cfg{pagedrv.CfgA, pagedrv.CfgB, pagedrv.CfgC}
+	depth, seedDepth := 6, 5
 	ctx.SetBudget(110 * time.Second)
 	if !ctx.Quick() {
 		cfgs = []pagedrv.Cfg{pagedrv.CfgA, pagedrv.CfgB, pagedrv.CfgC, pagedrv.CfgE}
-		depth = 9
+		depth, seedDepth = 9, 8
 		ctx.SetBudget(25 * time.Minute)
 	}
 	var total xstate.Stats
 	reopens, twinsRun := 0, 0
-	for _, cfg := range cfgs {
-		cfg := cfg
+	for _, run := range plan(cfgs, []seed{seedTail, seedFrag, seedWAL, seedFull, seedWide}, depth, seedDepth) {
+		cfg := run.Cfg
 		var twins []xstate.TwinTask
-		st := xstate.BFS(ctx, pool, xstate.Spec{Cfg: cfg, Alphabet: allocAlphabet(true, !ctx.Quick()), MaxDepth: depth,
+		st := xstate.BFS(ctx, pool, xstate.Spec{Cfg: cfg, Seed: run.Seed.Ops, Alphabet: allocAlphabet(true, !ctx.Quick()), MaxDepth: run.Depth,
 			OnTransition: func(from *xstate.Node, s *xstate.Succ, isNew bool, to *xstate.Node) {
 				sampleHook(ctx, cfg)(from, s, isNew, to)
 				if s.Op.K != pagedrv.OReopen || s.Dead {
@@ -350,7 +423,7 @@ func runC10(ctx *core.Ctx, pool *par.Pool) {
 				}
 				reopens++
 				path := append(from.Path(), s.Op)
-				if from.Log != "" && s.Log != from.Log {
+				if from.Log != "" && !sameLogical(from.Log, s.Log, usesOverflow(path)) {
 					var a, b pagedrv.Logical
 					json.Unmarshal([]byte(from.Log), &a)
 					json.Unmarshal([]byte(s.Log), &b)
@@ -360,13 +433,16 @@ func runC10(ctx *core.Ctx, pool *par.Pool) {
 					return
 				}
 				if s.Key != from.Key {
-					twins = append(twins, xstate.TwinTask{Cfg: cfg.Name, PathA: from.Path(), PathB: path, Conts: twinConts, Class: "reopen"})
+					tw := xstate.TwinTask{Cfg: cfg.Name, PathA: from.Path(), PathB: path, Conts: twinConts, Class: "reopen"}
+					if usesOverflow(path) {
+						tw.Ignore = []string{"Stats"}
+					}
+					twins = append(twins, tw)
 				}
 			}})
 		total.States += st.States
 		total.Transitions += st.Transitions
-		ctx.Set("depth_"+cfg.Name, st.Depth)
-		ctx.Set("closed_"+cfg.Name, st.Closed)
+		ctx.Set("depth_"+run.name(), st.Depth)
 		twinsRun += xstate.RunTwins(ctx, pool, twins)
 	}
 	ctx.Set("reopen_points_compared", reopens)
